@@ -58,6 +58,26 @@ def _run_one(args):
         shutil.rmtree(tmp, ignore_errors=True)
 
 
+def collect(prop: str) -> tuple[dict, list]:
+    """Run the catalogue for one property; returns (summary for the evidence file, problems)."""
+    from . import mutants
+
+    cat = [m for m in mutants.CATALOGUE if m[0] == prop]
+    if not cat:
+        return {"variants": 0}, []
+    with ProcessPoolExecutor(max_workers=min(16, len(cat))) as ex:
+        results = list(ex.map(_run_one, cat))
+    n_fire = sum(1 for m in cat if m[6] == "fire")
+    summary = {
+        "variants": len(cat),
+        "breaking_fired": f"{sum(1 for _m, st, _d in results if st == 'fired')}/{n_fire}",
+        "benign_silent": f"{sum(1 for _m, st, _d in results if st == 'silent')}/{len(cat) - n_fire}",
+        "results": {m: f"{st}: {d}"[:160] for m, st, d in results},
+    }
+    problems = [(m, st, d) for m, st, d in results if st in ("missed", "noisy", "stale")]
+    return summary, problems
+
+
 def run_for(prop: str) -> int:
     try:
         from . import mutants
